@@ -14,7 +14,7 @@ import (
 func init() {
 	register(&PropSpec{
 		ID:       "C11",
-		Patterns: []string{"./pkg/network", "./pkg/server", "./pkg/stagemanager", "./pkg/module/http2", "./pkg/stream/http", "./pkg/stream/http2", "./pkg/stream/xprotocol", "./pkg/mtls/crypto/tls", "./pkg/configmanager", "./pkg/metrics", "./pkg/mosn"},
+		Patterns: []string{"./pkg/network", "./pkg/server", "./pkg/stagemanager", "./pkg/module/http2", "./pkg/stream/http", "./pkg/stream/http2", "./pkg/stream/xprotocol", "./pkg/mtls/crypto/tls", "./pkg/configmanager", "./pkg/metrics", "./pkg/mosn", "./pkg/admin/store"},
 		Explanation: "Only orderings that are necessary for the documented behaviour are decided (the substance — no request fails around a signal — depends on two processes, kernel accept queues, fd passing and timing and is out of reach of a static argument): " +
 			"(O1) listener.Shutdown: on the non-upgrade branch the listener is closed before the drain callback, on the upgrade branch accepting is stopped before it and the listening socket is NOT closed (the new process owns it); " +
 			"(O2) activeListener.OnShutdown notifies every connection (OnShutdown event) and then waits in waitConnectionsClose(drainTime) on every path; the wait loop re-reads the active-stream gauge and is bounded by the elapsed time; " +
